@@ -315,13 +315,20 @@ fn check_interrupt_points(t: &mut Tape, ctx: &Ctx) -> Outcome {
     // at compile time and therefore executes nothing
     // (an over-long line is refused as a whole by the line buffer and executes nothing either)
     let too_long = format!("PRINT A{}", ";A".repeat(520));
-    let inspect = match t.below(7) {
+    let inspect = match t.below(8) {
         0 | 1 => Some("PRINT A;B%;A$;I"),
         2 => Some("PRINT A+"),
-        3 => Some("PRINT A;:GOTO 64999"),
+        3 => Some("PRINT A;:GOTO 64990"),
         4 => Some(too_long.as_str()),
+        // a variable-dump subroutine of the program called from the prompt (it only prints, and
+        // returns to the prompt)
+        5 if g.prog.lines.iter().all(|l| l.num < 64000) => Some("GOSUB 64999"),
         _ => None,
     };
+    if inspect == Some("GOSUB 64999") {
+        texts.push("64998 END".to_string());
+        texts.push("64999 PRINT A;B%;A$;I:RETURN".to_string());
+    }
     for k in ks {
         match interrupted(&texts, &g.replies, &probes, &base, k, None, inspect) {
             Err((c, d)) => return Outcome::fail(&c, d, case),
